@@ -12,6 +12,8 @@ import sys
 sys.setrecursionlimit(1000000)
 
 MAXCASES = 256
+# equalities that a harness assumption rules out syntactically (e.g. "this input byte is not '/'")
+KNOWN_FALSE = set()
 MAXPRODUCT = 16
 
 
@@ -588,7 +590,10 @@ def Eq(a, b):
             return r
         if a.id > b.id:
             a, b = b, a
-    return mk('eq', (a, b), 'B')
+    r = mk('eq', (a, b), 'B')
+    if r.id in KNOWN_FALSE:
+        return FALSE
+    return r
 
 
 # ---------------------------------------------------------------- bit-vectors
